@@ -542,6 +542,9 @@ func (m *Model) ruleKEYSPACE(r *Results) {
 		if s.Holes == 0 || s.IsSchema {
 			continue
 		}
+		if s.FormatHoles > 0 {
+			r.bad(rule, m.declName(s.Fn)+" / caller text is not a format string", m.instrPos(s.Call), "the caller-supplied statement text is made part of a fmt.Sprintf FORMAT string: a '%%' in the query (LIKE pattern, modulo) is rewritten by Sprintf and the query silently returns other rows or fails")
+		}
 		for _, v := range s.Variants {
 			if v.Err != nil {
 				continue
